@@ -300,9 +300,24 @@ impl Check for C17 {
 				};
 				let sc = if sz < 1e-3 { "tiny" } else if sz > 0.5 { "large" } else { "mid" };
 				let mut pending_volume = 0.0f64;
+				// independent model of the block the converter stands on: the last emitted brick (initially the block
+				// of one brick size centred on the first price); the serialized state must agree with it
+				let v0 = OHLCV::source(&first, SOURCES[*src as usize]) as f64;
+				let (mut ref_lu, mut ref_ll) = (v0 + v0 * sz * 0.5, v0 - v0 * sz * 0.5);
+				// block edges are computed as base * (1 +- size * k): their rounding lives at the scale of the base the last
+				// emission started from (a 99.9% fall leaves edges that are small differences of large numbers)
+				let mut edge_scale = ref_lu.abs();
 				for (t, x) in stream.iter().enumerate().skip(1) {
 					let c = x.candle();
 					let Some((lu, ll, nu, nl)) = renko_bounds(&m) else { break };
+					let btol = 64.0 * U * ref_lu.abs().max(ref_ll.abs()).max(edge_scale);
+					if (lu - ref_lu).abs() > btol || (ll - ref_ll).abs() > btol || (nu - ref_lu * (1.0 + sz)).abs() > 4.0 * btol || (nl - ref_ll * (1.0 - sz)).abs() > 4.0 * btol {
+						vs.push(
+							Violation::new("C17", "Renko", "block_state_consistent_with_emitted_bricks", t, format!("before input {t}: the converter stands on block [{ll:e}, {lu:e}] with next boundaries [{nl:e}, {nu:e}], but the last emitted brick is [{ref_ll:e}, {ref_lu:e}] (brick size {sz:e})"))
+								.tag("size", sz),
+						);
+						return vs;
+					}
 					let price = OHLCV::source(&c, SOURCES[*src as usize]) as f64;
 					pending_volume += c.volume as f64;
 					stats.ticks += 1;
@@ -327,6 +342,11 @@ impl Check for C17 {
 							return vs;
 						}
 						pending_volume = 0.0;
+						if let Some(lb) = out.clone().last() {
+							edge_scale = ref_lu.abs().max(ref_ll.abs());
+							ref_lu = (lb.open as f64).max(lb.close as f64);
+							ref_ll = (lb.open as f64).min(lb.close as f64);
+						}
 						continue;
 					}
 					let blocks: Vec<yata::methods::renko::RenkoBlock> = out.clone().collect();
@@ -404,6 +424,9 @@ impl Check for C17 {
 						stats.probe("observation:ohlcv_view_close_is_base_plus_size_times_len (absolute, bricks are relative)");
 					}
 					pending_volume = 0.0;
+					edge_scale = ref_lu.abs().max(ref_ll.abs());
+					ref_lu = (blocks[n - 1].open as f64).max(blocks[n - 1].close as f64);
+					ref_ll = (blocks[n - 1].open as f64).min(blocks[n - 1].close as f64);
 					stats.log(n as u64);
 				}
 			}
